@@ -540,6 +540,18 @@ theorem self_culprit_point :
     secondAttempt bullyElectedListed (fun n : Nat => n) 0 1 [0, 1, 2] (Err.wrap (.tss [0] true)) true none [1]
       = ⟨some [2, 1], .announces 1 [1, 0]⟩ := by decide
 
+/-- the intended election rule elects this relayer itself or the claimant -/
+theorem bullyElectedListed_self_or_claimant (key : α → Nat) (self : α) (cands : List α) (claimant : Option α) :
+    bullyElectedListed key self cands claimant = self ∨ some (bullyElectedListed key self cands claimant) = claimant := by
+  cases claimant with
+  | none => left; rfl
+  | some r =>
+    by_cases hr : r ∈ cands
+    · by_cases hc : (bullyIdx (sortDesc key cands) r < bullyIdx (sortDesc key cands) self || r = self) = true
+      · right; simp [bullyElectedListed, bullyElected, hr, hc]
+      · left; simp [bullyElectedListed, bullyElected, hr, hc]
+    · left; simp [bullyElectedListed, hr]
+
 /-- **C11 (model_satisfies).** The predicate `P11` — the one the driver evaluates on what the real coordinator was
     observed to do — holds of what the model does, for every error `e` of unambiguous cause `k`, retryable or not,
     every claimant and every sequence of ready messages; hypotheses: this relayer holds a key share and, if the process
@@ -562,7 +574,9 @@ theorem model_satisfies_p11 (key : α → Nat) (self : α) (t : Nat) (holders : 
     have retried : ∀ (hr : Retried k),
         let K := culprits k
         let o := seenOf arrivals (secondAttempt bullyElectedListed key self t holders e true claimant arrivals)
-        (∃ cs, o.election = some cs ∧ ∀ c ∈ cs, c ∈ holders ∧ c ∉ K) ∧ (∀ c ∈ o.readyTo, c ∉ K) ∧ o.crun = o.start ∧
+        (∃ cs, o.election = some cs ∧ ∀ c ∈ cs, c ∈ holders ∧ c ∉ K) ∧ (∀ c ∈ o.readyTo, c ∉ K) ∧
+        (decide (bullyElectedListed key self (nextCandidates holders K) claimant = self) = false →
+          ∀ c ∈ o.readyTo, some c = claimant) ∧ o.crun = o.start ∧
         (match o.start with | some S => ∀ c ∈ S, c ∉ K | none => True) ∧
         (decide (bullyElectedListed key self (nextCandidates holders K) claimant = self) = true →
           o.consumed ≤ arrivals.length ∧ AnnouncedOk ⟨self, holders, t, K⟩ (arrivals.take o.consumed) arrivals o.start) ∧
@@ -585,20 +599,26 @@ theorem model_satisfies_p11 (key : α → Nat) (self : α) (t : Nat) (holders : 
           have hp := announced_subset_ok_prefix key ⟨self, holders, t, culprits k⟩ hself hselfx arrivals n S hi
           have hw := announced_subset_ok key ⟨self, holders, t, culprits k⟩ hself hselfx arrivals n S hi
           simp only [seenOf]
-          refine ⟨⟨_, rfl, hel⟩, by simp, trivial, fun c hc hcul => hw.2.2.2.2.2 c hc hcul, fun _ => ⟨hp.1, hp.2⟩, trivial⟩
+          refine ⟨⟨_, rfl, hel⟩, by simp, by simp, trivial, fun c hc hcul => hw.2.2.2.2.2 c hc hcul, fun _ => ⟨hp.1, hp.2⟩, trivial⟩
         | none =>
           have ha := initiate_announcedOk key ⟨self, holders, t, culprits k⟩ hself hselfx arrivals
           rw [hi] at ha
           simp only [seenOf]
-          refine ⟨⟨_, rfl, hel⟩, by simp, trivial, trivial, fun _ => ⟨Nat.le_refl _, ?_⟩, trivial⟩
+          refine ⟨⟨_, rfl, hel⟩, by simp, by simp, trivial, trivial, fun _ => ⟨Nat.le_refl _, ?_⟩, trivial⟩
           simpa [AnnouncedOk] using ha
       · simp only [helc, if_false, decide_false]
         simp only [seenOf]
-        refine ⟨⟨_, rfl, hel⟩, ?_, trivial, trivial, by simp, trivial⟩
-        intro c hc
-        simp only [List.mem_singleton] at hc
-        subst hc
-        exact listed_election_follows_no_culprit key self holders (culprits k) claimant hselfx
+        refine ⟨⟨_, rfl, hel⟩, ?_, ?_, trivial, trivial, by simp, trivial⟩
+        · intro c hc
+          simp only [List.mem_singleton] at hc
+          subst hc
+          exact listed_election_follows_no_culprit key self holders (culprits k) claimant hselfx
+        · intro _ c hc
+          simp only [List.mem_singleton] at hc
+          subst hc
+          rcases bullyElectedListed_self_or_claimant key self (nextCandidates holders (culprits k)) claimant with h | h
+          · exact absurd h helc
+          · exact h
     cases k with
     | unknown =>
       simp [secondAttempt, afterFailure, hcl, plan, seenOf, EndedWith]
